@@ -142,3 +142,34 @@ def shrink(exe_impl, exe_model, case, pred=None):
                 i += chunk
         chunk //= 2
     return (h, ops)
+
+def twin_diff(exe_impl, seed, n):
+    """C12, direct: the same calls on Map and on MapOf[string, interface{}]"""
+    import re
+    r = random.Random(seed + 104729)
+    cases = []
+    for i in range(n):
+        h, ops = gen_case(r, "w%d" % i, "map", "default", big=(i % 10 == 9))
+        ops = [o for o in ops if o != "OP layout" and not o.startswith("OP range stopkey")]
+        cases.append((h, ops))
+    twin = [([h[0].replace(" map ", " mapof_sa ", 1)], o) for h, o in cases]
+    rc1, o1, e1 = C.sh([exe_impl], inp=render(cases), timeout=1200)
+    rc2, o2, e2 = C.sh([exe_impl], inp=render(twin), timeout=1200)
+    a, b = split_output(o1), split_output(o2)
+    def canon(line):
+        m = re.match(r"(\d+ list )(\S*)( ;.*)", line)
+        if m:
+            return m.group(1) + ",".join(sorted(m.group(2).split(","))) + m.group(3)
+        return line
+    diffs = []
+    for ci, (ca, cb) in enumerate(zip(a, b)):
+        la, lb = ca[1][1:], cb[1][1:]          # skip the 'built' line (bucket sizes differ: 3 vs 5 slots)
+        for i in range(max(len(la), len(lb))):
+            x = canon(la[i]) if i < len(la) else "(missing)"
+            y = canon(lb[i]) if i < len(lb) else "(missing)"
+            if x != y:
+                diffs.append(dict(case=ci, index=i, op=cases[ci][1][i] if i < len(cases[ci][1]) else "?", map=x[:300], mapof=y[:300]))
+                break
+    if rc1 != 0 or rc2 != 0:
+        diffs.append(dict(case=-1, index=-1, op="(crash)", map=e1[-500:], mapof=e2[-500:]))
+    return diffs, cases
